@@ -123,6 +123,8 @@ func audClaim(kind string) interface{} {
 		return TokenURL + "/tenants/other"
 	case "with_query":
 		return TokenURL + "?tenant=other"
+	case "empty_list":
+		return []string{}
 	case "list_child_path":
 		return []string{"https://somewhere.else/token", TokenURL + "/"}
 	}
